@@ -143,7 +143,7 @@ func envConfigs(thorough bool) []EnvCfg {
 	for ti, tz := range []int{1, 98, 99, 100, 128, 300} {
 		r = append(r, EnvCfg{Chunk: 100, TailZeros: tz, Err: ti % len(termErrs), AfterErr: ti % 2})
 	}
-	r = append(r, EnvCfg{Chunk: 7, ZeroReads: 50, Err: 3}, EnvCfg{Chunk: 4097, ZeroReads: 50, ErrWithLast: true, Err: 5, AfterErr: 1})
+	r = append(r, EnvCfg{Chunk: 7, ZeroReads: 30, Err: 3}, EnvCfg{Chunk: 4097, ZeroReads: 30, ErrWithLast: true, Err: 5, AfterErr: 1})
 	r = append(r, EnvCfg{Chunk: 1, Len: true, Err: 6}, EnvCfg{Chunk: 100, ErrWithLast: true, Len: true, Err: 7, AfterErr: 1}, EnvCfg{Chunk: 4096, Len: true, Err: 1})
 	for _, ch := range []int{0, 1, 7, 4097} {
 		for _, wl := range []bool{false, true} {
